@@ -505,6 +505,13 @@ impl Built {
                 self.doms.push(l.get_true_predicate().get_domain());
                 self.lits.push(Some(l));
             }
+            VarDecl::PredLit { pred } => {
+                // the public API has no named variant; the proof refers to the predicate instead
+                let p = self.pred(pred);
+                let l = self.solver.new_literal_for_predicate(p);
+                self.doms.push(l.get_true_predicate().get_domain());
+                self.lits.push(Some(l));
+            }
         }
         self.occ.push(0);
         idx
